@@ -5,6 +5,7 @@
 #include "parsec/sys/atomic.h"
 #include "parsec/class/parsec_hash_table.c"
 #include "parsec/utils/mca_param.h"
+#include "parsec/utils/output.h"
 #include "seqx.h"
 #include <stddef.h>
 
@@ -141,6 +142,7 @@ int main(int argc, char **argv)
     sx_init(argc, argv, "C32");
     parsec_mca_param_init();
     if (parsec_hash_tables_init() != PARSEC_SUCCESS) return 2;
+    parsec_output_set_verbosity(0, -1);                      /* the "table cannot grow any more" warning is expected here: keep stderr readable */
     set_mca_int("hash_table_max_table_nb_bits", 5);           /* tables grow to at most 4 bits (16 buckets): the state space closes */
     /* hash values, searched with the table's own rehash function: all keys in one bucket of the 2-bucket table */
     static const int want[NK + 1][2] = { {0,0}, {0,0}, {1,0}, {0,1}, {0,0}, {0,0} };
